@@ -63,3 +63,55 @@ pub fn copy_dir(from: &str, to: &str) -> std::io::Result<()> {
     }
     Ok(())
 }
+
+// ---------------------------------------------------------------------------
+// SlowStore: a delegating object store whose uploads take a while (real time).
+// A slow store is ordinary operation, not a fault: every request succeeds.
+
+use async_trait::async_trait;
+use futures::stream::BoxStream;
+use object_store::{
+    path::Path as OPath, GetOptions, GetResult, ListResult, MultipartUpload, ObjectMeta, ObjectStore, PutMultipartOpts, PutOptions, PutPayload,
+    PutResult,
+};
+
+#[derive(Debug)]
+pub struct SlowStore {
+    pub inner: std::sync::Arc<dyn ObjectStore>,
+    pub put_delay: std::time::Duration,
+}
+
+impl std::fmt::Display for SlowStore {
+    fn fmt(&self, f: &mut std::fmt::Formatter<'_>) -> std::fmt::Result {
+        write!(f, "SlowStore({:?})", self.put_delay)
+    }
+}
+
+#[async_trait]
+impl ObjectStore for SlowStore {
+    async fn put_opts(&self, location: &OPath, payload: PutPayload, opts: PutOptions) -> object_store::Result<PutResult> {
+        tokio::time::sleep(self.put_delay).await;
+        self.inner.put_opts(location, payload, opts).await
+    }
+    async fn put_multipart_opts(&self, location: &OPath, opts: PutMultipartOpts) -> object_store::Result<Box<dyn MultipartUpload>> {
+        self.inner.put_multipart_opts(location, opts).await
+    }
+    async fn get_opts(&self, location: &OPath, options: GetOptions) -> object_store::Result<GetResult> {
+        self.inner.get_opts(location, options).await
+    }
+    async fn delete(&self, location: &OPath) -> object_store::Result<()> {
+        self.inner.delete(location).await
+    }
+    fn list(&self, prefix: Option<&OPath>) -> BoxStream<'_, object_store::Result<ObjectMeta>> {
+        self.inner.list(prefix)
+    }
+    async fn list_with_delimiter(&self, prefix: Option<&OPath>) -> object_store::Result<ListResult> {
+        self.inner.list_with_delimiter(prefix).await
+    }
+    async fn copy(&self, from: &OPath, to: &OPath) -> object_store::Result<()> {
+        self.inner.copy(from, to).await
+    }
+    async fn copy_if_not_exists(&self, from: &OPath, to: &OPath) -> object_store::Result<()> {
+        self.inner.copy_if_not_exists(from, to).await
+    }
+}
